@@ -195,8 +195,9 @@ structure CoreOK (vis : Wrap → Bool) (l : List Rec) : Prop where
     a.key = b.key → a.sfxLocal = true → b.sfxLocal = true → a.sfx ≠ b.sfx
   /-- explicit suffixes are not of the automatically numbered form -/
   explicit_not_auto : ∀ a ∈ l, eligible a = true → a.sfxLocal = true → isAuto a.sfx = false
-  /-- only template clones carry a template suffix -/
-  eligible_tsfx : ∀ a ∈ l, eligible a = true → a.tsfx = []
+  /-- numbered entry points share the template suffix (empty, or the one inherited from a
+      class instantiation); only template clones get their own -/
+  eligible_tsfx : ∀ a ∈ l, ∀ b ∈ l, eligible a = true → eligible b = true → a.tsfx = b.tsfx
   /-- a templated entry point shares its name only with templated entry points of
       different suffixes -/
   templated_alone : l.Pairwise fun a b => a.name = b.name → vis a.wrap = true → vis b.wrap = true →
@@ -243,7 +244,8 @@ theorem pair_names_ne {vis : Wrap → Bool} {seen rest : List Rec} {r b : Rec} (
       have hgt : seen.countP (inGroup b.key) < i := by
         rw [List.countP_append] at hi
         simp [gr] at hi; omega
-      rw [ok.eligible_tsfx r hrm her, ok.eligible_tsfx b hbm heb, List.append_nil, List.append_nil] at h
+      rw [ok.eligible_tsfx r hrm b hbm her heb] at h
+      have h := List.append_cancel_right h
       rw [hk] at h
       cases hlr : r.sfxLocal <;> cases hlb : b.sfxLocal
       · rw [renumber_sfx_auto her hsize hlr, renumber_sfx_auto heb hsize hlb] at h
@@ -424,7 +426,7 @@ theorem templateClones_sum (g : Rec → Nat) (k : Nat) (o : Rec) (w : Wrap)
   | cons t ts ih =>
     intro i
     simp only [templateClones, List.map_cons, List.sum_cons, List.length_cons, ih]
-    rw [h (t.suffix i), Nat.add_mul]; omega
+    rw [h (t.suffix o.tsfx i), Nat.add_mul]; omega
 
 
 /-! ### generic-interface table -/
@@ -578,7 +580,9 @@ theorem pair_names_ne_ext {vis : Wrap → Bool} {ext : Rec → List Str} {seen r
       have hgt : seen.countP (inGroup b.key) < i := by
         rw [List.countP_append] at hi
         simp [gr] at hi; omega
-      rw [ok.eligible_tsfx r hrm her, ok.eligible_tsfx b hbm heb, List.append_nil, List.append_nil] at h
+      rw [ok.eligible_tsfx r hrm b hbm her heb] at h
+      have h : _ ++ e1 = _ ++ e2 := List.append_cancel_right
+        (by simpa only [List.append_assoc] using h)
       rw [hk] at h
       have fin : ∀ s1 s2 : Str, isTok s1 = true → isTok s2 = true → s1 ≠ s2 → s1 ++ e1 = s2 ++ e2 → False :=
         fun s1 s2 t1 t2 ne hh => ne (tok_cancel t1 t2 hx1 hx2 hh)
@@ -656,5 +660,57 @@ theorem number_ext_names_nodup {vis : Wrap → Bool} {ext : Rec → List Str}
     obtain ⟨e1, he1, rfl⟩ := hx
     obtain ⟨e2, he2, rfl⟩ := hy
     exact h va vb e1 he1 e2 he2
+
+
+/-! ### Python / Lua method tables -/
+
+theorem dedupAux_spec : ∀ (l seen : List Str),
+    (dedupAux seen l).Nodup ∧ ∀ a ∈ dedupAux seen l, a ∉ seen ∧ a ∈ l := by
+  intro l
+  induction l with
+  | nil => intro _; simp [dedupAux]
+  | cons a l ih =>
+    intro seen
+    unfold dedupAux
+    split
+    · obtain ⟨h1, h2⟩ := ih seen
+      exact ⟨h1, fun x hx => ⟨(h2 x hx).1, by simp [(h2 x hx).2]⟩⟩
+    · rename_i hs
+      obtain ⟨h1, h2⟩ := ih (a :: seen)
+      refine ⟨List.nodup_cons.2 ⟨fun hm => ?_, h1⟩, ?_⟩
+      · exact (h2 a hm).1 (by simp)
+      · intro x hx
+        simp only [List.mem_cons] at hx
+        rcases hx with rfl | hx
+        · exact ⟨hs, by simp⟩
+        · have := h2 x hx
+          exact ⟨fun hm => this.1 (by simp [hm]), by simp [this.2]⟩
+
+theorem dedup_nodup (l : List Str) : (dedup l).Nodup := (dedupAux_spec l []).1
+
+theorem mem_dedup {l : List Str} {a : Str} (h : a ∈ dedup l) : a ∈ l := ((dedupAux_spec l []).2 a h).2
+
+theorem single_names_nodup (recs : List Rec) :
+    ((recs.filter (pySingle recs)).map (·.name)).Nodup := by
+  rw [List.nodup_iff_count]
+  intro n
+  rw [List.count_eq_countP, List.countP_map, List.countP_filter]
+  by_cases h : pyCount recs n = 1
+  · have : List.countP (fun a => ((fun x => x == n) ∘ fun r => r.name) a && pySingle recs a) recs
+        ≤ pyCount recs n := by
+      unfold pyCount
+      apply List.countP_mono_left
+      intro r _ hr
+      simp only [Function.comp, pySingle, Bool.and_eq_true, beq_iff_eq] at hr
+      simp [hr.1, hr.2.1.1]
+    omega
+  · have : List.countP (fun a => ((fun x => x == n) ∘ fun r => r.name) a && pySingle recs a) recs = 0 := by
+      apply List.countP_eq_zero.2
+      intro r _
+      simp only [Function.comp, pySingle, Bool.and_eq_true, beq_iff_eq, not_and]
+      intro hn _
+      subst hn
+      exact h
+    omega
 
 end Shroud.Names
